@@ -331,3 +331,126 @@ Proof.
   - destruct Hfoot as (H1 & H2 & H3 & H4). rewrite H1, H2, H4, <- H3. cbn [andb]. rewrite andb_true_r. reflexivity.
   - rewrite Hfoot. cbn [andb]. rewrite andb_true_r. reflexivity.
 Qed.
+
+(* ---------------------------------------------------------------- the whole run, from any phase-0 state *)
+Lemma vverdict_vrun_nil s : verdict_of (vrun s []) = vverdict s None.
+Proof. reflexivity. Qed.
+
+Lemma vrun_S0 b :
+  zone_vmdk_text b = false -> zone_vmdk_shortfoot b = false ->
+  forall cs st d x,
+  b = st ++ concat cs -> blen st < 64 -> (blen d < 4 -> d = st) -> is_prefix d st -> early x ->
+  verdict_of (vrun (S0 st d x) cs) = vmdk_spec b.
+Proof.
+  intros Hz1 Hz3. pose proof (zone_noct b Hz1) as Hnoct.
+  induction cs as [|c t IH]; intros st d x Hb Hst Hd Hpd Hx.
+  - (* the stream ends before 64 bytes *)
+    cbn [concat] in Hb. rewrite app_nil_r in Hb. subst st.
+    rewrite vverdict_vrun_nil, (final_S0 b d x Hst Hx). unfold vmdk_spec.
+    replace (blen b <? VMDK_MIN_SPARSE_HEADER) with true by (unfold VMDK_MIN_SPARSE_HEADER; lia). reflexivity.
+  - cbn [concat] in Hb. rewrite app_assoc in Hb.
+    assert (Hpb : is_prefix (st ++ c) b) by (exists (concat t); exact Hb).
+    assert (Hd'p : is_prefix (d0_next st d c) (st ++ c)).
+    { unfold d0_next. destruct (4 <=? blen d); [apply is_prefix_app; exact Hpd | apply is_prefix_btake]. }
+    destruct (N.lt_ge_cases (blen st + blen c) 64) as [Hc|Hc].
+    + (* still below 64 bytes *)
+      rewrite (vrun_cons_ok _ _ _ _ (step0 st d x c Hst Hd Hc)).
+      apply IH; [exact Hb | rewrite blen_app; exact Hc | | exact Hd'p |].
+      * unfold d0_next. destruct (4 <=? blen d) eqn:H4; [lia|]. intros _. apply btake_all. rewrite blen_app. lia.
+      * unfold x_next. destruct (negb (4 <=? blen d) && (4 <=? blen (d0_next st d c))); [|exact Hx].
+        apply parse_ext_early; [|exact Hx]. apply (noct_prefix _ b); [|exact Hnoct]. eapply is_prefix_trans; eassumption.
+    + (* this chunk completes the header *)
+      set (h := btake 512 (st ++ c)).
+      assert (Hlb : 64 <= blen b) by (apply is_prefix_len in Hpb; rewrite blen_app in Hpb; lia).
+      assert (Hl : 64 <= blen h) by (subst h; rewrite blen_btake, blen_app; lia).
+      assert (Hph : is_prefix h b) by (eapply is_prefix_trans; [apply is_prefix_btake | exact Hpb]).
+      assert (Hu : btake 64 h = vh b) by (unfold vh; apply btake_prefix; [exact Hph | exact Hl]).
+      assert (Hd4 : 4 <= blen (d0_next st d c)).
+      { unfold d0_next. destruct (4 <=? blen d) eqn:H4; [lia|]. rewrite blen_btake, blen_app. lia. }
+      assert (Hfm : prefixb VMDK_MAGIC h = prefixb VMDK_MAGIC b).
+      { apply prefixb_prefix; [exact Hph|]. change (blen VMDK_MAGIC) with 4. lia. }
+      unfold vmdk_spec.
+      replace (blen b <? VMDK_MIN_SPARSE_HEADER) with false by (unfold VMDK_MIN_SPARSE_HEADER; lia).
+      change (beq (vh_sig b) VMDK_MAGIC_PP) with (hdr_sig_ok (vh b)). change (ver_ok (vh_ver b)) with (hdr_ver_ok (vh b)).
+      change (vh_desc_sec b * VMDK_SECTOR_A =? VMDK_DESC_OFFSET) with (hdr_loc_ok (vh b)).
+      change (vh_gd b =? VMDK_GD_AT_END) with (hdr_foot (vh b)).
+      destruct (hdr_sig_ok (vh b)) eqn:Hs; cbn [negb orb].
+      2:{ (* Signature KDMV not found *)
+        assert (Ht : forallb ascii_text h = false).
+        { destruct (forallb ascii_text h) eqn:Ht; [|reflexivity].
+          rewrite <- (zone_not_text b Hz1 Hlb Hs). symmetry. rewrite <- Hu. apply (forallb_prefix _ _ h (is_prefix_btake 64 h) Ht). }
+        rewrite (vrun_cons_exn _ _ _ _ _ (stepT_bad st d x c Hst Hd Hc (or_introl (conj (eq_trans (f_equal hdr_sig_ok Hu) Hs) Ht)))).
+        fold h. change (verdict_of (I_vmdk (Insp_Engine.finish (T0 (st ++ c) h (d0_next st d c) x)), Some ImageFormatError))
+          with (vverdict (T0 (st ++ c) h (d0_next st d c) x) (Some ImageFormatError)).
+        rewrite (final_T0 _ _ _ _ Hl Hd4 Hx), Hfm. reflexivity. }
+      destruct (hdr_ver_ok (vh b)) eqn:Hv; cbn [negb].
+      2:{ (* Unsupported format version *)
+        rewrite (vrun_cons_exn _ _ _ _ _ (stepT_bad st d x c Hst Hd Hc
+                   (or_intror (conj (eq_trans (f_equal hdr_sig_ok Hu) Hs) (eq_trans (f_equal hdr_ver_ok Hu) Hv))))).
+        fold h. change (verdict_of (I_vmdk (Insp_Engine.finish (T0 (st ++ c) h (d0_next st d c) x)), Some ImageFormatError))
+          with (vverdict (T0 (st ++ c) h (d0_next st d c) x) (Some ImageFormatError)).
+        rewrite (final_T0 _ _ _ _ Hl Hd4 Hx), Hfm. reflexivity. }
+      destruct (hdr_loc_ok (vh b)) eqn:Ho; cbn [negb].
+      2:{ (* Wrong descriptor location *)
+        rewrite (vrun_cons_exn _ _ _ _ _ (stepT_wrongloc st d x c Hst Hd Hc
+                   (eq_trans (f_equal hdr_sig_ok Hu) Hs) (eq_trans (f_equal hdr_ver_ok Hu) Hv) (eq_trans (f_equal hdr_loc_ok Hu) Ho))).
+        fold h. rewrite Hu. destruct (hdr_foot (vh b)); cbn [negb].
+        - change (verdict_of (I_vmdk (Insp_Engine.finish (T0f (st ++ c) h (d0_next st d c) x)), Some ImageFormatError))
+            with (vverdict (T0f (st ++ c) h (d0_next st d c) x) (Some ImageFormatError)).
+          rewrite (final_T0f _ _ _ _ Hx), Hfm. reflexivity.
+        - change (verdict_of (I_vmdk (Insp_Engine.finish (T0 (st ++ c) h (d0_next st d c) x)), Some ImageFormatError))
+            with (vverdict (T0 (st ++ c) h (d0_next st d c) x) (Some ImageFormatError)).
+          rewrite (final_T0 _ _ _ _ Hl Hd4 Hx), Hfm. reflexivity. }
+      (* valid sparse header *)
+      pose proof (stepT_valid st d x c Hst Hd Hc (eq_trans (f_equal hdr_sig_ok Hu) Hs) (eq_trans (f_equal hdr_ver_ok Hu) Hv)
+                    (eq_trans (f_equal hdr_loc_ok Hu) Ho)) as Hstep.
+      cbv zeta in Hstep. fold h in Hstep. rewrite Hu in Hstep.
+      set (dsz := hdr_dsz (vh b)) in *.
+      rewrite (vrun_cons_ok _ _ _ _ Hstep).
+      set (foot1 := if hdr_foot (vh b) then Some (blen (st ++ c) - blen (btail 1536 c), btail 1536 c) else None) in *.
+      set (x1 := if dsz =? blen (bslice 512 dsz (st ++ c)) then parse_ext (bslice 512 dsz (st ++ c)) x else x) in *.
+      assert (Hf1 : hdr_foot (btake 64 h) = has_foot foot1) by (rewrite Hu; subst foot1; destruct (hdr_foot (vh b)); reflexivity).
+      assert (Hfi1 : foot_inv (st ++ c) foot1).
+      { subst foot1. destruct (hdr_foot (vh b)); cbn [foot_inv]; [|exact I]. exists st, c. auto. }
+      assert (Hxi1 : ext_inv dsz (bslice 512 dsz (st ++ c)) x1).
+      { unfold ext_inv. subst x1. destruct (dsz =? blen (bslice 512 dsz (st ++ c))); [|exact Hx]. exists x. auto. }
+      destruct (eat_all_S1 h dsz Hl (eq_trans (f_equal hdr_sig_ok Hu) Hs) (eq_trans (f_equal hdr_ver_ok Hu) Hv)
+                  (eq_trans (f_equal hdr_loc_ok Hu) Ho) t foot1 (st ++ c) x1 Hf1 Hfi1 Hxi1) as (foot' & x' & He & Hf' & Hfi' & Hxi').
+      unfold vrun. rewrite He. rewrite <- Hb in *.
+      change (verdict_of (I_vmdk (Insp_Engine.finish (S1 foot' dsz b h (bslice 512 dsz b) x')), None))
+        with (vverdict (S1 foot' dsz b h (bslice 512 dsz b) x') None).
+      transitivity (vmdk_spec b).
+      * apply (final_valid b h foot' x' Hlb Hph Hl Hs Hv Ho); [rewrite Hf', <- Hf1, Hu; reflexivity | exact Hfi' | | exact Hxi'].
+        intros Hfoot. exact (zone_foot_len b Hz3 Hlb Hs Hv Hfoot).
+      * unfold vmdk_spec.
+        replace (blen b <? VMDK_MIN_SPARSE_HEADER) with false by (unfold VMDK_MIN_SPARSE_HEADER; lia).
+        change (beq (vh_sig b) VMDK_MAGIC_PP) with (hdr_sig_ok (vh b)). change (ver_ok (vh_ver b)) with (hdr_ver_ok (vh b)).
+        change (vh_desc_sec b * VMDK_SECTOR_A =? VMDK_DESC_OFFSET) with (hdr_loc_ok (vh b)).
+        rewrite Hs, Hv, Ho. reflexivity.
+Qed.
+
+(* ---------------------------------------------------------------- the theorem *)
+Theorem vmdk_refines_spec b cs :
+  concat cs = b -> zone_vmdk_text b = false /\ zone_vmdk_shortfoot b = false ->
+  verdict_of (run F_vmdk cs) = vmdk_spec b.
+Proof.
+  intros Hb [Hz1 Hz3]. rewrite run_vmdk, init_S0.
+  apply (vrun_S0 b Hz1 Hz3 cs [] [] x0); [symmetry; exact Hb | reflexivity | reflexivity | apply is_prefix_refl | reflexivity].
+Qed.
+
+Corollary vmdk_chunking_independent cs1 cs2 :
+  concat cs1 = concat cs2 ->
+  zone_vmdk_text (concat cs1) = false /\ zone_vmdk_shortfoot (concat cs1) = false ->
+  verdict_of (run F_vmdk cs1) = verdict_of (run F_vmdk cs2).
+Proof.
+  intros Hc Hz. rewrite (vmdk_refines_spec (concat cs1) cs1 eq_refl Hz).
+  rewrite (vmdk_refines_spec (concat cs1) cs2 (eq_sym Hc) Hz). reflexivity.
+Qed.
+
+Corollary vmdk_empty_chunks_irrelevant cs :
+  zone_vmdk_text (concat cs) = false /\ zone_vmdk_shortfoot (concat cs) = false ->
+  verdict_of (run F_vmdk (filter nonempty cs)) = verdict_of (run F_vmdk cs).
+Proof.
+  intros Hz. apply vmdk_chunking_independent; [apply concat_filter_nonempty|].
+  rewrite concat_filter_nonempty. exact Hz.
+Qed.
